@@ -28,11 +28,20 @@ PY = "/venv/bin/python"
 EXTCACHE = os.path.join(VERIF, "build", "extcache")
 SO_NAME = "shapley_cy.cpython-312-x86_64-linux-gnu.so"
 
-ALLOWED_AXIOM_PREFIXES = (
-    "PrimFloat.", "Uint63.", "PrimInt63.", "FloatOps.", "SpecFloat.", "Coq.Floats.", "Coq.Numbers.Cyclic.Int63.",
-    "float", "int", "add", "sub", "mul", "div", "eqb", "ltb", "leb", "compare", "of_uint63", "of_int63", "opp", "abs",
-    "normfr_mantissa", "frshiftexp", "ldshiftexp", "next_up", "next_down", "sqrt", "classify",
-)
+PRIMITIVE_TYPE_TOKENS = {"int", "PrimInt63.int", "Uint63.int", "float", "PrimFloat.float", "bool", "comparison",
+                         "float_comparison", "PrimFloat.float_comparison", "float_class", "PrimFloat.float_class",
+                         "Set", "->", "*", "(", ")"}
+
+
+def primitive_axiom(line):
+    """A `Print Assumptions` entry is acceptable iff it is one of the kernel's primitive machine-integer /
+    binary64 operations, recognised by its type mentioning primitive types only (user declarations are ruled out
+    separately by the source audit)."""
+    if ":" not in line:
+        return False
+    ty = line.split(":", 1)[1]
+    toks = re.findall(r"->|\*|\(|\)|[A-Za-z_][A-Za-z0-9_.']*", ty)
+    return bool(toks) and all(t in PRIMITIVE_TYPE_TOKENS for t in toks)
 
 
 def log(*a):
@@ -271,9 +280,16 @@ def check_property_file(pid):
         if kind == "closed":
             report.append({"theorem": name, "assumptions": "Closed under the global context"})
         else:
-            names = [ln.split(":")[0].strip() for ln in lines if re.match(r"^\S", ln)]
-            notallowed = [n for n in names if not n.startswith(ALLOWED_AXIOM_PREFIXES)]
-            report.append({"theorem": name, "assumptions": names})
+            entries = []
+            for ln in lines:
+                if re.match(r"^\S", ln):
+                    entries.append(ln.strip())
+                elif entries:
+                    entries[-1] += " " + ln.strip()
+            names = [e.split(":")[0].strip() for e in entries]
+            notallowed = [e for e in entries if not primitive_axiom(e)]
+            report.append({"theorem": name, "assumptions": "primitive int63/binary64 operations only: " + ", ".join(names)
+                           if not notallowed else entries})
             if notallowed:
                 ok = False
     return ok, theorems, report, (r.stdout + r.stderr)[-3000:], missing
